@@ -51,6 +51,9 @@ type run struct {
 	Stop     string   `json:"stop"` // term | kill
 	KillAt   int      `json:"kill_at_ms,omitempty"`   // >0: SIGKILL this many ms after exec (interrupted start)
 	KillSys  int      `json:"kill_at_syscall,omitempty"` // >0: strace-injected SIGKILL at the k-th matching syscall
+	// >0: the injected SIGKILL is restricted (strace -P) to system calls that touch the KillPath-th identity
+	// file of the data directory, as discovered by tracing one complete first start; KillSys counts those
+	KillPath int `json:"kill_at_access_to_identity_file,omitempty"`
 }
 
 type scenario struct {
@@ -96,6 +99,27 @@ func scenarios(tier string, seed int64) []scenario {
 		r := core.NewRng(seed, "C18/kill", i)
 		svcs := []string{"telnet", "ssh-simulator", "ftp", "smtp", "ldap"}
 		out = append(out, scenario{Kind: "random-kill", Runs: []run{{Services: svcs, KillAt: r.Range(1, 1500)}, {Services: svcs, Stop: "kill"}, {Services: svcs, Stop: "term"}}})
+	}
+	// kills at the k-th system call that touches an identity file (token, its temporary, ...): every
+	// intermediate on-disk state of those files that a kill can leave, without naming the files here
+	np, nk2 := 3, 8
+	if tier == "thorough" {
+		np, nk2 = 4, 14
+	}
+	for pi := 1; pi <= np; pi++ {
+		for k := 1; k <= nk2; k++ {
+			svcs := []string{"telnet"}
+			out = append(out, scenario{Kind: "path-kill", Runs: []run{{Services: svcs, KillSys: k, KillPath: pi}, {Services: svcs, Stop: "kill"}, {Services: svcs, Stop: "term"}}})
+		}
+	}
+	if tier != "thorough" {
+		// kills at the k-th file-system call of a thread of the first start (strace injection): the identity
+		// files are written by the first few dozen, so the states a kill really leaves are covered without
+		// naming them
+		for k := 1; k <= 40; k++ {
+			svcs := []string{"telnet"}
+			out = append(out, scenario{Kind: "syscall-kill", Runs: []run{{Services: svcs, KillSys: k}, {Services: svcs, Stop: "kill"}, {Services: svcs, Stop: "term"}}})
+		}
 	}
 	if tier == "thorough" {
 		for k := 1; k <= 400; k += 1 {
@@ -154,12 +178,14 @@ type proc struct {
 	out  string
 }
 
-func start(bin, dir string, cfg string, killSys int) (*proc, error) {
+func start(bin, dir string, cfg string, killSys int, killPath string) (*proc, error) {
 	os.MkdirAll(filepath.Join(dir, "ftproot"), 0755)
 	cfgPath := filepath.Join(dir, "config.toml")
 	os.WriteFile(cfgPath, []byte(cfg), 0644)
 	args := []string{bin, "-c", cfgPath, "-d", filepath.Join(dir, "data")}
-	if killSys > 0 {
+	if killSys > 0 && killPath != "" {
+		args = append([]string{"strace", "-f", "-o", "/dev/null", "-P", killPath, "-e", fmt.Sprintf("inject=all:signal=SIGKILL:when=%d", killSys)}, args...)
+	} else if killSys > 0 {
 		args = append([]string{"strace", "-f", "-o", "/dev/null", "-e", "trace=openat,write,fsync,fdatasync,rename,mkdir",
 			"-e", fmt.Sprintf("inject=openat,write,fsync,fdatasync,rename,mkdir:signal=SIGKILL:when=%d", killSys)}, args...)
 	}
@@ -201,6 +227,19 @@ func (p *proc) stop(how string) {
 	}
 	syscall.Kill(-p.cmd.Process.Pid, syscall.SIGKILL)
 	<-p.done
+	p.gone()
+}
+
+// gone waits until no process of the group is left: under strace the traced server outlives the tracer for a
+// moment, still holding the data directory's lock and its listening sockets.
+func (p *proc) gone() {
+	for i := 0; i < 500; i++ {
+		if err := syscall.Kill(-p.cmd.Process.Pid, 0); err == syscall.ESRCH {
+			return
+		}
+		syscall.Kill(-p.cmd.Process.Pid, syscall.SIGKILL)
+		time.Sleep(10 * time.Millisecond)
+	}
 }
 
 func waitPort(port int, p *proc, max time.Duration) bool {
@@ -216,7 +255,9 @@ func waitPort(port int, p *proc, max time.Duration) bool {
 			self := c.LocalAddr().String() == c.RemoteAddr().String()
 			c.Close()
 			if !self {
-				return true
+				// the answer must come from this process: one that has just exited did not give it
+				time.Sleep(30 * time.Millisecond)
+				return !p.exited()
 			}
 		}
 		time.Sleep(20 * time.Millisecond)
@@ -225,6 +266,14 @@ func waitPort(port int, p *proc, max time.Duration) bool {
 }
 
 // ---- identity readers -------------------------------------------------------------------------
+
+// lastErr holds why the last identity read of this child failed (diagnostics only).
+var lastErr string
+
+func note(format string, a ...interface{}) string {
+	lastErr = fmt.Sprintf(format, a...)
+	return ""
+}
 
 func fp(b []byte) string { h := sha256.Sum256(b); return hex.EncodeToString(h[:8]) }
 
@@ -235,6 +284,8 @@ func readSSHKey(port int) string {
 	c, err := ssh.Dial("tcp", fmt.Sprintf("127.0.0.1:%d", port), cfg)
 	if err == nil {
 		c.Close()
+	} else if key == "" {
+		note("ssh dial: %v", err)
 	}
 	return key
 }
@@ -243,7 +294,7 @@ func tlsCert(c net.Conn) string {
 	tc := tls.Client(c, &tls.Config{InsecureSkipVerify: true})
 	tc.SetDeadline(time.Now().Add(5 * time.Second))
 	if err := tc.Handshake(); err != nil {
-		return ""
+		return note("tls handshake: %v", err)
 	}
 	cs := tc.ConnectionState()
 	if len(cs.PeerCertificates) == 0 {
@@ -264,14 +315,14 @@ func lineConn(port int) (net.Conn, *bufio.Reader, error) {
 func readFTPCert(port int) string {
 	c, br, err := lineConn(port)
 	if err != nil {
-		return ""
+		return note("dial: %v", err)
 	}
 	defer c.Close()
-	br.ReadString('\n')
+	b0, err0 := br.ReadString('\n')
 	fmt.Fprintf(c, "AUTH TLS\r\n")
-	l, _ := br.ReadString('\n')
+	l, err := br.ReadString('\n')
 	if !strings.HasPrefix(l, "234") {
-		return ""
+		return note("ftp: banner %q (%v), AUTH TLS answered %q (%v)", b0, err0, l, err)
 	}
 	return tlsCert(c)
 }
@@ -279,24 +330,24 @@ func readFTPCert(port int) string {
 func readSMTPCert(port int) string {
 	c, br, err := lineConn(port)
 	if err != nil {
-		return ""
+		return note("dial: %v", err)
 	}
 	defer c.Close()
-	br.ReadString('\n')
+	b0, err0 := br.ReadString('\n')
 	fmt.Fprintf(c, "EHLO id.test\r\n")
 	for {
 		l, err := br.ReadString('\n')
 		if err != nil {
-			return ""
+			return note("smtp: banner %q (%v), EHLO reply line %q (%v)", b0, err0, l, err)
 		}
 		if len(l) >= 4 && l[3] == ' ' {
 			break
 		}
 	}
 	fmt.Fprintf(c, "STARTTLS\r\n")
-	l, _ := br.ReadString('\n')
+	l, err := br.ReadString('\n')
 	if !strings.HasPrefix(l, "220") {
-		return ""
+		return note("smtp: STARTTLS answered %q (%v)", l, err)
 	}
 	return tlsCert(c)
 }
@@ -304,14 +355,14 @@ func readSMTPCert(port int) string {
 func readLDAPCert(port int) string {
 	c, _, err := lineConn(port)
 	if err != nil {
-		return ""
+		return note("dial: %v", err)
 	}
 	defer c.Close()
 	c.Write(gen.LDAPMsg(1, gen.BER(0x77, gen.BER(0x80, []byte("1.3.6.1.4.1.1466.20037")))))
 	buf := make([]byte, 256)
-	n, _ := c.Read(buf)
+	n, err := c.Read(buf)
 	if n < 10 {
-		return ""
+		return note("ldap: StartTLS answered %d bytes (%v)", n, err)
 	}
 	return tlsCert(c)
 }
@@ -366,10 +417,63 @@ type runObs struct {
 	Tokens    []string          `json:"tokens"` // distinct tokens seen in this run's events
 	TokenFile string            `json:"token_file"`
 	Tail      string            `json:"tail,omitempty"`
+	KillPath  string            `json:"killed_at_access_to,omitempty"`
+	Died      bool              `json:"died_before_ready,omitempty"`
 }
 
 type scnObs struct {
 	Runs []runObs `json:"runs"`
+}
+
+var idPaths []string
+var idPathsDone bool
+
+// identityPaths traces one complete first start of the real binary on a scratch data directory and returns
+// the files it touches there, other than the key-value store's own (sorted, relative to the data directory).
+func identityPaths() []string {
+	if idPathsDone {
+		return idPaths
+	}
+	idPathsDone = true
+	dir := filepath.Join(lab.WorkDir(), "discover")
+	os.MkdirAll(filepath.Join(dir, "data"), 0755)
+	defer os.RemoveAll(dir)
+	p := freePorts()
+	cfg := config(dir, p, []string{"telnet"}, false)
+	os.MkdirAll(filepath.Join(dir, "ftproot"), 0755)
+	cfgPath := filepath.Join(dir, "config.toml")
+	os.WriteFile(cfgPath, []byte(cfg), 0644)
+	trace := filepath.Join(dir, "trace.txt")
+	cmd := exec.Command("strace", "-f", "-o", trace, "-e", "trace=%file", binPath(), "-c", cfgPath, "-d", filepath.Join(dir, "data"))
+	cmd.Dir = dir
+	cmd.SysProcAttr = &syscall.SysProcAttr{Setpgid: true}
+	if cmd.Start() != nil {
+		return nil
+	}
+	pr := &proc{cmd: cmd, done: make(chan struct{})}
+	go func() { cmd.Wait(); close(pr.done) }()
+	if waitPort(p.Telnet, pr, 20*time.Second) {
+		time.Sleep(200 * time.Millisecond)
+	}
+	pr.stop("term") // a killed strace loses its buffered output
+	pr.gone()
+	b, _ := os.ReadFile(trace)
+	prefix := filepath.Join(dir, "data") + "/"
+	seen := map[string]bool{}
+	for _, m := range regexp.MustCompile(regexp.QuoteMeta(prefix)+`([^"/]+)"`).FindAllSubmatch(b, -1) {
+		rel := string(m[1])
+		if strings.HasPrefix(rel, "badger.db") || seen[rel] {
+			continue
+		}
+		seen[rel] = true
+		idPaths = append(idPaths, rel)
+	}
+	sort.Strings(idPaths)
+	fmt.Fprintf(os.Stderr, "identityPaths: %v (trace of %d bytes, prefix %s)\n", idPaths, len(b), prefix)
+	if len(idPaths) == 0 && len(b) > 1500 {
+		fmt.Fprintf(os.Stderr, "trace tail: %s\n", b[len(b)-1500:])
+	}
+	return idPaths
 }
 
 func binPath() string { return filepath.Join(core.VerifDir(), ".build", "honeytrap") }
@@ -393,17 +497,30 @@ func runScenario(k int, sc scenario) scnObs {
 			readyPort = p.Agent
 		}
 		if r.KillAt > 0 || r.KillSys > 0 {
-			pr, err := start(binPath(), dir, cfg, r.KillSys)
+			killPath := ""
+			if r.KillPath > 0 {
+				paths := identityPaths()
+				if r.KillPath > len(paths) {
+					return scnObs{} // no such file: nothing to run
+				}
+				killPath = filepath.Join(dir, "data", paths[r.KillPath-1])
+				ro.KillPath = paths[r.KillPath-1]
+			}
+			pr, err := start(binPath(), dir, cfg, r.KillSys, killPath)
 			if err == nil {
 				if r.KillAt > 0 {
 					time.Sleep(time.Duration(r.KillAt) * time.Millisecond)
+					ro.Died = pr.exited()
 					pr.stop("kill")
 				} else {
-					select {
-					case <-pr.done:
-					case <-time.After(8 * time.Second):
-						pr.stop("kill")
+					// the injected kill ends the process; if the server comes up instead, the k-th call
+					// was not part of the start-up and the run is an ordinary killed run
+					if waitPort(readyPort, pr, 8*time.Second) {
+						time.Sleep(100 * time.Millisecond)
 					}
+					ro.Died = pr.exited()
+					pr.stop("kill")
+					pr.gone()
 				}
 			}
 			ro.Killed = true
@@ -416,7 +533,7 @@ func runScenario(k int, sc scenario) scnObs {
 		var pr *proc
 		for attempt := 0; attempt < 3; attempt++ {
 			var err error
-			pr, err = start(binPath(), dir, cfg, 0)
+			pr, err = start(binPath(), dir, cfg, 0, "")
 			if err != nil {
 				continue
 			}
@@ -479,13 +596,16 @@ func runScenario(k int, sc scenario) scnObs {
 				// if the first read raced the start-up
 				waitPort(portOf[s], pr, 10*time.Second)
 				v := ""
-				for try := 0; try < 3 && v == ""; try++ {
+				for try := 0; try < 5 && v == ""; try++ {
 					if try > 0 {
-						time.Sleep(300 * time.Millisecond)
+						time.Sleep(time.Duration(300<<uint(try-1)) * time.Millisecond)
 					}
 					v = rd(portOf[s])
 				}
 				ro.Identity[names[s]] = v
+				if v == "" {
+					ro.Tail += fmt.Sprintf("[%s: %s alive=%v] ", names[s], lastErr, !pr.exited())
+				}
 			}
 			// events reach the file after the channel's one-second flush; touch the telnet service until
 			// this run's events show up (bounded: 5 rounds of 4 s)
@@ -640,7 +760,7 @@ func (prop) Judge(b core.Batch, recs []core.Rec, exits []core.Exit) []core.Resul
 			}
 			for key, v := range ro.Identity {
 				if v == "" {
-					fail("identity-unreadable|"+key, fmt.Sprintf("run %d: %s could not be read from the running service", i, key))
+					fail("identity-unreadable|"+key, fmt.Sprintf("run %d: %s could not be read from the running service %s", i, key, clip(ro.Tail)))
 					continue
 				}
 				if f, ok := first[key]; ok && f != v {
